@@ -78,7 +78,13 @@ def sim_cases(draw):
         sched = draw(st.sampled_from(['silence', 'trickle', 'eintr+trickle']))
     else:
         sched = draw(st.sampled_from(['silence', 'trickle', 'burst', 'match', 'match+trickle', 'exit', 'eintr', 'eintr+trickle']))
-    if kind == 'pty' and Teff is not None and entry != 'waitnoecho' and draw(st.integers(0, 7)) == 0:
+    enc = None
+    if entry != 'waitnoecho' and kind != 'socket' and draw(st.integers(0, 9)) == 0:
+        # unicode mode: the only thing that ever arrives is the first bytes of a multi-byte character (nothing the
+        # decoder can hand out), then silence
+        sched = 'halfchar'
+        enc = 'utf-8'
+    elif kind == 'pty' and Teff is not None and entry != 'waitnoecho' and draw(st.integers(0, 7)) == 0:
         # the child exits but something else keeps its terminal open and silent: no hang-up, no data; the death
         # is only visible through the liveness checks, and the call must still end by its deadline
         sched = 'exit-noclose'
@@ -108,6 +114,9 @@ def sim_cases(draw):
             # precedes the exit by more than that is the excluded known-finding class)
             acts.append({'t': te + draw(st.integers(0, 3)) * 1e-6, 'op': 'exit', 'status': draw(st.sampled_from([0, 256, 9]))})
         acts.append({'t': te + draw(st.integers(0, 3)) * 1e-6, 'op': 'close'})
+    if sched == 'halfchar':
+        acts.append({'t': base * draw(st.sampled_from([0.0, 0.0, 0.3, 0.9])), 'op': 'write',
+                     'data': draw(st.sampled_from([b'\xc3', b'\xe2\x82', b'\xf0\x9f\x98']))})
     if sched == 'exit-noclose':
         te = base * draw(st.sampled_from([0.0, 0.0, 0.4, 0.99, 1.01, 2.0]))
         acts.append({'t': te, 'op': 'exit', 'status': draw(st.sampled_from([0, 256, 9]))})
@@ -121,7 +130,7 @@ def sim_cases(draw):
             echo_off = base * draw(st.sampled_from([0.0, 0.3, 0.7, 1.5]))
             acts.append({'t': echo_off, 'op': 'echo', 'on': False})
     return {'kind': kind, 'entry': entry, 'T': Tsel, 'default_T': default_T, 'sched': sched, 'actions': acts,
-            'tm': tm, 'te': te, 'echo_off': echo_off, 'use_poll': draw(st.booleans()),
+            'tm': tm, 'te': te, 'echo_off': echo_off, 'use_poll': draw(st.booleans()), 'enc': enc,
             'size': draw(st.sampled_from([1, 100, 2000])),
             # the timeout the socket object already carries when it is handed to pexpect (socket transport only)
             'sock_timeout': draw(st.sampled_from([None, None, 0.0, 0.2, 11.0])) if kind == 'socket' else None,
@@ -180,7 +189,7 @@ def expected(case, observed=None):
 def run_entry(sp, case):
     """Perform the call.  Returns ('match'|'data'|'timeout'|'eof'|'true'|'false', value)."""
     entry, T = case['entry'], case['T']
-    pat = MATCH
+    pat = MATCH.decode('ascii') if case.get('enc') else MATCH
     try:
         if entry == 'expect':
             sp.expect(pat, timeout=T)
@@ -211,7 +220,8 @@ def check_sim(case, col=None):
     feats = set()
     try:
         with sim.installed():
-            sp = simkernel.make_reader(sim, use_poll=case['use_poll'], timeout=case['default_T'], maxread=case['size'])
+            ekw = {'encoding': case['enc']} if case.get('enc') else {}
+            sp = simkernel.make_reader(sim, use_poll=case['use_poll'], timeout=case['default_T'], maxread=case['size'], **ekw)
             sp.delayafterread = case.get('delayafterread')      # the sleeps it causes are part of the accounted overhead
             if case['kind'] == 'socket':
                 sim.sock_proxy._timeout = case.get('sock_timeout')
